@@ -64,6 +64,9 @@ type Pos struct {
 	Prev   []string
 	LockID uint64 // underlying lock (superfluid full-range position)
 	Gone   bool
+	// NoClaims: born after the fee-paying swaps and the incentive's first minute - nothing has accrued to it. A handler
+	// that returns early when there is nothing to claim must still have checked the sender before.
+	NoClaims bool
 }
 
 type Lock struct {
@@ -120,6 +123,8 @@ func (p Pos) Variant() string {
 		return "pos:withdrawn"
 	case p.LockID != 0:
 		return "pos:sf-locked"
+	case len(p.Prev) == 0 && p.NoClaims:
+		return "pos:fresh-nothing-to-claim"
 	case len(p.Prev) == 0:
 		return "pos:fresh"
 	case has(p.Prev, p.Owner):
@@ -410,6 +415,12 @@ func NewWorld() *World {
 		panic(err)
 	}
 	w.Ctx = next
+	{
+		var r cltypes.MsgCreatePositionResponse
+		mustUnmarshal(w.must(next, "create position A (nothing to claim)", &cltypes.MsgCreatePosition{PoolId: w.PoolID, Sender: core.Acc("A").String(), LowerTick: -30000, UpperTick: 40000,
+			TokensProvided: core.Coins(pool.GetToken0(), 10000000, pool.GetToken1(), 10000000), TokenMinAmount0: sdkmath.ZeroInt(), TokenMinAmount1: sdkmath.ZeroInt()}), &r)
+		l.Pos = append(l.Pos, Pos{ID: r.PositionId, Owner: "A", NoClaims: true})
+	}
 
 	// the hand-listed protected module accounts must be registered module accounts of the application
 	reg := app.ModuleAccountAddrs()
